@@ -25,6 +25,7 @@ cleanup() { git -C /repo worktree remove --force "$V" >/dev/null 2>&1; [ "${SEED
 trap cleanup EXIT
 res_without=skip; res_with=skip; build_with=skip; suite_with=skip
 d=""
+[ "${SEED_SKIP_DEMO:-0}" = 1 ] && demo=""
 if [ -n "$demo" ]; then
   d=$(python3 -c "import json,sys;print(json.load(open('$out/meta.agent.json')).get('demo_dir',''))" 2>/dev/null)
   if [ -z "$d" ]; then
@@ -98,7 +99,7 @@ for x in results.split():
 m={"name":name,"property":meta.get("property",name.split('-')[0].upper()),"summary":meta.get("summary",""),
    "needs_to_manifest":meta.get("needs_to_manifest",""),
    "demo_dir":meta.get("demo_dir",""),
-   "confirmed_here":{"demo_on_unchanged_tree":rw,"demo_with_change":rwi,"build_with_change":b,
+   "confirmed_here":{"demo_on_unchanged_tree":rw if rw!='skip' else old.get('confirmed_here',{}).get('demo_on_unchanged_tree','skip'),"demo_with_change":rwi if rwi!='skip' else old.get('confirmed_here',{}).get('demo_with_change','skip'),"build_with_change":b,
                 "existing_suite_with_change":sw if sw!='skip' else old.get('confirmed_here',{}).get('existing_suite_with_change','skip')},
    "agent_verification":meta.get("how_verified",""),
    "checks_run":[f"{k}:{v}" for k,v in sorted(runs.items())]}
